@@ -225,7 +225,7 @@ def subchecks():
             name="find",
             run_case=run_case,
             strategy=lambda tier: pair_case(tier),
-            examples={"quick": 5000, "thorough": 100000},
+            examples={"quick": 8000, "thorough": 100000},
             case_timeout=30.0,
         )
     ]
